@@ -386,7 +386,6 @@ func (conn *Conn) ConnectContext(ctx context.Context) error {
 func (conn *Conn) internalConnect(ctx context.Context) error {
 	conn.mu.Lock()
 	defer conn.mu.Unlock()
-	conn.initialise()
 
 	if conn.cfg.Server == "" {
 		return fmt.Errorf("irc.Connect(): cfg.Server must be non-empty")
@@ -394,6 +393,7 @@ func (conn *Conn) internalConnect(ctx context.Context) error {
 	if conn.connected {
 		return fmt.Errorf("irc.Connect(): Cannot connect to %s, already connected.", conn.cfg.Server)
 	}
+	conn.initialise()
 
 	if !hasPort(conn.cfg.Server) {
 		if conn.cfg.SSL {
